@@ -6,6 +6,20 @@ open Bxh.Sync
 def showRanges (rs : List Range) : String :=
   "[" ++ joinSp (rs.map fun r => s!"{r.b}-{r.e}") ++ "]"
 
+/-- `SyncCFTBlocks` / `SyncBFTBlocks` with at least one peer that answers: the blocks of the ranges, in order, then the end
+marker; one answered request per range -/
+def syncRun (s : Unit) (b e f : String) : Unit × String :=
+  match b.toNat?, e.toNat?, f.toNat? with
+  | some b, some e, some f =>
+    let f := if f = 0 then 5 else f
+    if e > 4000 || b == 0 then (s, "bad-op") else
+    match syncStream b e f with
+    | some (rs, stream) =>
+      let blocks := stream.filterMap id
+      (s, "blocks=[" ++ joinSp (blocks.map toString) ++ "] " ++ (if stream.getLast? == some none then "end" else "no-end-marker") ++ " requests=" ++ showRanges rs)
+    | none => (s, "err")
+  | _, _, _ => (s, "bad-op")
+
 def step (s : Unit) (ws : List String) : Unit × String :=
   match ws with
   | ["ranges", b, e, f] =>
@@ -17,6 +31,8 @@ def step (s : Unit) (ws : List String) : Unit × String :=
       | some rs => (s, showRanges rs)
       | none => (s, "err")
     | _, _, _ => (s, "bad-op")
+  | "cft" :: b :: e :: f :: _ => syncRun s b e f
+  | "bft" :: b :: e :: f :: _ => syncRun s b e f
   | _ => (s, "bad-op")
 
 end Driver.SyncEngine
